@@ -64,6 +64,14 @@ func applyLayout(n *zoo.FNode, layout, idx int) {
 	}
 }
 
+// c04Warm: a graph with shared nodes and containers, encoded before the graph under test
+var c04Warm = func() *zoo.FNode {
+	a := &zoo.FNode{Id: 100, FS: []int32{}, FM: map[string]int32{"w": 1}}
+	b := &zoo.FNode{Id: 101, A: a, B: a, Ls: []*zoo.FNode{a}}
+	a.A = b
+	return b
+}()
+
 var c04TM map[string]reflect.Type
 var c04NM map[string]string
 
@@ -91,6 +99,25 @@ func graphCheck(root *zoo.FNode) string {
 	}
 	if cerr := vcmp.Equal(root, out, c04NM); cerr != nil {
 		return fmt.Sprintf("decoded graph differs: %v; bytes %s", cerr, hexClip(b, 200))
+	}
+	// the ordinals of a message must not depend on what the instance encoded or decoded before
+	var b2 []byte
+	var out2 interface{}
+	if pv, st := guard(func() {
+		s := hessian.NewSerializer(c04TM, copyNames(c04NM))
+		if _, err = s.ToBytes(c04Warm); err == nil {
+			if b2, err = s.ToBytes(root); err == nil {
+				out2, err = s.ToObject(b2)
+			}
+		}
+	}); pv != nil || err != nil {
+		return fmt.Sprintf("second message on one Serializer: %v %v [%s]", err, pv, st)
+	}
+	if msg := sameStream(b, b2); msg != "" {
+		return "the same graph encoded as the second message of a Serializer differs from a fresh encoding: " + msg
+	}
+	if cerr := vcmp.Equal(root, out2, c04NM); cerr != nil {
+		return fmt.Sprintf("decoded as the second message of a Serializer the graph differs: %v", cerr)
 	}
 	want, _ := zoo.Project(root, c04NM)
 	got, _, derr := refcodec.Decode(b)
